@@ -230,17 +230,26 @@ where
     // We accumulate all validity checks into single branches at the end in order to
     // keep the loop itself branchless.
     let mut laps_or_zeros = 0usize;
+    let mut num_explicit_probabilities = 0usize;
     let mut accum = Probability::zero();
 
     for probability in probabilities {
         let old_accum = accum;
         accum = accum.wrapping_add(probability.borrow());
         laps_or_zeros += (accum <= old_accum) as usize;
+        num_explicit_probabilities += 1;
         let symbol = symbols.next().ok_or(())?;
         operation(symbol, old_accum, *probability.borrow())?;
     }
 
     let total = wrapping_pow2::<Probability>(PRECISION);
+
+    // We don't support degenerate probability distributions that put all probability mass
+    // on a single symbol, so there have to be at least two symbols (one of which may be the
+    // one whose probability gets inferred).
+    if num_explicit_probabilities + (infer_last_probability as usize) < 2 {
+        return Err(());
+    }
 
     if infer_last_probability {
         if accum >= total || laps_or_zeros != 0 {
